@@ -66,6 +66,7 @@ type World struct {
 	durMs      map[int]*Term
 	tablesDropped, dbClosed int
 	removed    []*Term
+	sqlOpens   [][2]*Term // (driver, data source name) of every sql.Open
 	httpBuilt  *httpSent
 	httpSent   []*httpSent
 	httpHeaders [][2]*Term
@@ -278,6 +279,43 @@ func init() {
 	})
 	vx("Assert", func(ex *Exec, fr *Frame, a []Value, s ssa.Instruction) Value {
 		ex.assertObl(a[0].(*Term), ex.str(a[1], "label"))
+		return nil
+	})
+	// Accepts(cond, label): an acceptance obligation - over all executions that reach this point, at least one must
+	// admit cond (sat query on this path's condition); decided when the harness has been explored completely
+	vx("Accepts", func(ex *Exec, fr *Frame, a []Value, s ssa.Instruction) Value {
+		label := ex.str(a[1], "label")
+		h := ex.H
+		if !h.wants(label) {
+			return nil
+		}
+		h.mu.Lock()
+		first := h.accPosed[label] == ""
+		if first {
+			h.accPosed[label] = ex.posStr()
+			h.obligations++
+			h.oblLabels[label]++
+		}
+		done := h.accWitness[label]
+		h.mu.Unlock()
+		if done {
+			return nil
+		}
+		ex.sol.what = "accepts " + label
+		switch ex.sat(a[0].(*Term)) {
+		case "sat":
+			h.mu.Lock()
+			if !h.accWitness[label] {
+				h.accWitness[label] = true
+				h.discharged++
+			}
+			h.mu.Unlock()
+		case "unsat":
+		default:
+			h.mu.Lock()
+			h.accUnknown[label] = true
+			h.mu.Unlock()
+		}
 		return nil
 	})
 	vx("Reach", func(ex *Exec, fr *Frame, a []Value, s ssa.Instruction) Value {
